@@ -2,6 +2,7 @@
 //! properties: C09 C10
 //! note: ChannelManager side of a completed persistence (channelmanager.rs channel_monitor_updated / try_resume_channel_post_monitor_update / handle_initial_monitor): a completion report retires exactly the in-flight updates up to the reported id (a report without id retires none) and nothing is resumed while any update of the channel remains in flight or while the channel is not waiting for one; a channel that still has blocked updates is not resumed (its held messages stay held) though the queued actions are handed over; the actions of a closed channel are released then; the initial monitor resumes the channel only when its persistence completed; during start-up an update is not handed to the Watch but queued as a background event naming this channel and this very update, and counts as neither completed nor all-complete
 //! trusted: R15 (deep slices): channel_monitor_updated (manager): the statements computing remaining_in_flight (retain written as a loop, R6e, predicate carried verbatim), the early return, the awaiting-update gate, the closed-channel branch's release; try_resume_channel_post_monitor_update: the blocked test, the channel_update condition, the needs_persist expression and its later `|=`; handle_new_monitor_update_locked_actions_handled_by_caller: the start-up branch; each verbatim as a function of the values it reads; `needs_persist |= E` on bools is written `{ let more = E; needs_persist || more }` (Verus has no `|` on bools; E is evaluated unconditionally as in the source); handle_initial_monitor is extracted whole over a recorder for try_resume_channel_post_monitor_update (R5: `&self` written `&mut self`)
+//! trusted: R15/R6e (deep slice of handle_monitor_update_completion_actions, PaymentClaimed arm): the inner `retain` over channels_without_preimage (its test carried verbatim) and the loop that frees the claim's channels as index loops with invariants against Seq::filter; PublicKey / ChannelId compare structurally; the outer retain over the channel's blockers and the map lookups are not sliced
 //! trusted: assume_specification for core::cmp::max / core::cmp::min (std definitions): present in every unit so that a change that introduces them is verified instead of being rejected by the tool
 use vstd::prelude::*;
 verus! {
@@ -130,6 +131,85 @@ impl ActionList { #[verifier::external_body] pub fn is_empty(&self) -> (r: bool)
     needs_persist |= htlc_forwards.is_empty() && false;
 //@end
 
+
+// ---- an MPP claim's RAA blocker falls only when the preimage is durable in EVERY channel of the claim ----
+impl vstd::std_specs::cmp::PartialEqSpecImpl for PublicKey { open spec fn obeys_eq_spec() -> bool { true } open spec fn eq_spec(&self, other: &PublicKey) -> bool { *self == *other } }
+impl PartialEq for PublicKey { #[verifier::external_body] fn eq(&self, o: &PublicKey) -> (r: bool) { self.0 == o.0 } }
+impl vstd::std_specs::cmp::PartialEqSpecImpl for ChannelId { open spec fn obeys_eq_spec() -> bool { true } open spec fn eq_spec(&self, other: &ChannelId) -> bool { *self == *other } }
+impl PartialEq for ChannelId { #[verifier::external_body] fn eq(&self, o: &ChannelId) -> (r: bool) { self.0 == o.0 } }
+pub struct Blocker { pub id: u64 }
+impl Clone for Blocker { #[verifier::external_body] fn clone(&self) -> (r: Self) ensures r == *self { unimplemented!() } }
+pub struct PendingMPPClaim { pub channels_without_preimage: Vec<(PublicKey, ChannelId)>, pub channels_with_preimage: Vec<(PublicKey, ChannelId)> }
+pub open spec fn others(s: Seq<(PublicKey, ChannelId)>, k: (PublicKey, ChannelId)) -> Seq<(PublicKey, ChannelId)> { s.filter(|e: (PublicKey, ChannelId)| e != k) }
+pub open spec fn these(s: Seq<(PublicKey, ChannelId)>, k: (PublicKey, ChannelId)) -> Seq<(PublicKey, ChannelId)> { s.filter(|e: (PublicKey, ChannelId)| e == k) }
+pub proof fn lemma_split_push(s: Seq<(PublicKey, ChannelId)>, x: (PublicKey, ChannelId), k: (PublicKey, ChannelId))
+    ensures others(s.push(x), k) == (if x != k { others(s, k).push(x) } else { others(s, k) }), these(s.push(x), k) == (if x == k { these(s, k).push(x) } else { these(s, k) })
+{
+    assert(s.push(x).drop_last() =~= s);
+    reveal(Seq::filter);
+    let p = |e: (PublicKey, ChannelId)| e != k; let q = |e: (PublicKey, ChannelId)| e == k;
+    assert(s.push(x).filter(p) == (if p(x) { s.filter(p).push(x) } else { s.filter(p) }));
+    assert(s.push(x).filter(q) == (if q(x) { s.filter(q).push(x) } else { s.filter(q) }));
+}
+pub open spec fn freed_of(w: Seq<(PublicKey, ChannelId)>, b: Blocker) -> Seq<(PublicKey, ChannelId, Blocker)> { Seq::new(w.len(), |i: int| (w[i].0, w[i].1, b)) }
+//@extract lightning/src/ln/channelmanager.rs :: impl ChannelManager :: fn handle_monitor_update_completion_actions
+//@slice R15
+    claim_state.channels_without_preimage.retain(|(cp, cid)| { let this_claim = $c:seq; if this_claim { claim_state.channels_with_preimage.push((*cp, *cid)); false } else { true } }); if $allin:cond { for (cp, cid) in claim_state.channels_with_preimage.iter() { $fb:any } } $keep:seq }); if blockers.get().is_empty() {
+//@with
+    fn note_that_the_preimage_is_durable_in_one_channel_of_an_mpp_claim(claim_state: &mut PendingMPPClaim, cp_node_id: PublicKey, chan_id: ChannelId, blocker: &Blocker, freed_channels: &mut Vec<(PublicKey, ChannelId, Blocker)>) -> bool {
+        let ghost orig = claim_state.channels_without_preimage@; let ghost with0 = claim_state.channels_with_preimage@; let ghost key = (cp_node_id, chan_id);
+        let mut i: usize = 0; let ghost mut done: int = 0;
+        while i < claim_state.channels_without_preimage.len()
+            invariant 0 <= i <= claim_state.channels_without_preimage@.len(), 0 <= done <= orig.len(), claim_state.channels_without_preimage@.len() - i == orig.len() - done,
+                claim_state.channels_without_preimage@.take(i as int) =~= others(orig.take(done), key), claim_state.channels_without_preimage@.skip(i as int) =~= orig.skip(done),
+                claim_state.channels_with_preimage@ =~= with0 + these(orig.take(done), key), key == (cp_node_id, chan_id),
+            decreases claim_state.channels_without_preimage@.len() - i,
+        {
+            let ghost cur = claim_state.channels_without_preimage@;
+            let e0 = claim_state.channels_without_preimage[i].0; let e1 = claim_state.channels_without_preimage[i].1;
+            let keep = { let cp = &e0; let cid = &e1; let this_claim = $c; if this_claim { claim_state.channels_with_preimage.push((*cp, *cid)); false } else { true } };
+            proof {
+                assert(orig.take(done + 1) =~= orig.take(done).push(orig[done])); assert(cur[i as int] == cur.skip(i as int)[0]);
+                lemma_split_push(orig.take(done), orig[done], key);
+                assert(cur.skip(i as int + 1) =~= cur.skip(i as int).skip(1)); assert(orig.skip(done + 1) =~= orig.skip(done).skip(1));
+            }
+            if keep { proof { assert(cur.take(i as int + 1) =~= cur.take(i as int).push(cur[i as int])); } i += 1; }
+            else { claim_state.channels_without_preimage.remove(i);
+                   proof { let after = claim_state.channels_without_preimage@; assert(after.take(i as int) =~= cur.take(i as int)); assert(after.skip(i as int) =~= cur.skip(i as int + 1)); } }
+            proof { done = done + 1; }
+        }
+        proof { assert(claim_state.channels_without_preimage@.take(i as int) =~= claim_state.channels_without_preimage@); assert(orig.take(done) =~= orig); }
+        if $allin {
+            let ghost f0 = freed_channels@; let mut k: usize = 0;
+            while k < claim_state.channels_with_preimage.len()
+                invariant 0 <= k <= claim_state.channels_with_preimage@.len(), freed_channels@ =~= f0 + freed_of(claim_state.channels_with_preimage@.take(k as int), *blocker),
+                decreases claim_state.channels_with_preimage@.len() - k,
+            {
+                let c0 = claim_state.channels_with_preimage[k].0; let c1 = claim_state.channels_with_preimage[k].1;
+                { let cp = &c0; let cid = &c1; $fb }
+                proof { assert(claim_state.channels_with_preimage@.take(k as int + 1) =~= claim_state.channels_with_preimage@.take(k as int).push(claim_state.channels_with_preimage@[k as int])); }
+                k += 1;
+            }
+            proof { assert(claim_state.channels_with_preimage@.take(k as int) =~= claim_state.channels_with_preimage@); }
+        }
+        $keep
+    }
+//@ret r
+//@ensures P C09,C02,C04 the-held-revocations-of-a-multi-part-claim-are-freed-only-when-the-preimage-is-durable-in-every-channel-of-the-claim-a-completion-moves-only-its-own-channel
+    final(claim_state).channels_without_preimage@ == others(old(claim_state).channels_without_preimage@, (cp_node_id, chan_id)),
+    final(claim_state).channels_with_preimage@ == old(claim_state).channels_with_preimage@ + these(old(claim_state).channels_without_preimage@, (cp_node_id, chan_id)),
+    r == (final(claim_state).channels_without_preimage@.len() != 0),
+    r ==> final(freed_channels)@ == old(freed_channels)@,
+    !r ==> final(freed_channels)@ == old(freed_channels)@ + freed_of(final(claim_state).channels_with_preimage@, *blocker),
+//@mutant one_channels_completion_counts_for_every_channel_of_the_peer
+    let this_claim = *cp == cp_node_id && *cid == chan_id;
+//@with
+    let this_claim = *cp == cp_node_id || *cid == chan_id;
+//@mutant blocker_dropped_while_channels_still_lack_the_preimage
+    !claim_state.channels_without_preimage.is_empty() });
+//@with
+    claim_state.channels_without_preimage.is_empty() });
+//@end
 // ---- the initial monitor ----
 pub struct LoggerStub {}
 //@extract lightning/src/chain/mod.rs :: enum ChannelMonitorUpdateStatus
